@@ -319,6 +319,8 @@ BOUNDED = [
      'history on one AVX / SSE planner: every ordered pair of requests over 11 (thorough 18) related lengths x 2 directions: len, direction, result equals the portable transform up to rounding; replicas: 6 planners of each kind fed the same sequence (two cached candidate inner lengths, then a Bluestein prime; related smooth lengths) must return bit-identical outputs', 'avx,sse'),
     ('dft_scalar', ['C01', 'C06', 'C12', 'C14'], 'dft_scalar:400+', 'dft_scalar:2500+',
      'floating-point algebra is outside both verifiers: FftPlannerScalar<f64> against the DFT definition through all four entry points (NaN-filled exact scratch and output): unit impulses and two-impulse sums for every n below the limit and structured lengths up to 16384 (thorough: up to 131072 incl. Bluestein/Rader primes above 65536), dense vector vs naive sum for n <= 256'),
+    ('foreign', ['C13', 'C14'], 'foreign:200', 'foreign:1000',
+     'C14 with element types other than f32 / f64 (replay/incrate_foreign.rs): (1) the exact prime field GF(p), p = 1 mod 2^6 3^2 5 7 37 41 43, whose from_f64 maps cos / sin of rational angles to roots of unity (type written by the seeding sub-agent of C14-3, reused): FftPlanner and FftPlannerScalar transforms of the 51 lengths dividing N (Rader lengths 37, 41, 43 and multiples included) equal the O(n^2) DFT over GF(p)[i] exactly on a random vector (Schwartz-Zippel) and, for n <= 16, on the impulse basis, through three entry points; (2) an f64 in a 16-byte struct whose validity tag every operation checks: FftPlanner<Wide> for every n below the limit is bit-identical to FftPlannerScalar<f64> (in-place and immutable entry points); (3) FftPlannerAvx / FftPlannerSse decline both types (Err, no panic) after planners for f32 and f64 were created in the same process', 'avx,sse'),
     ('compose', ['C01', 'C03', 'C09', 'C12'], 'compose:64,0', 'compose:96,1',
      'composition of the PUBLIC constructors (C12) against the DFT definition: leaves Dft(1..7) and twelve fixed-size butterflies, both directions; depth 1: MixedRadix, MixedRadixSmall, GoodThomasAlgorithm(Small) over every ordered pair of leaves, Radix4 / Radix3::new_with_base (k <= 2), RadersAlgorithm (prime length), BluesteinsAlgorithm with the largest, second largest and smallest admissible length for the inner transform (inner length == 2 len - 1 included); composite length below the limit; thorough: depth 2 over a third of the depth-1 nodes and the small leaves; each built within its documented precondition (a panic is reported) and run through the four entry points with NaN-filled exact scratch'),
     ('primroot', ['C01', 'C06', 'C12', 'C14'], 'primroot:2000000', 'primroot:16777216',
